@@ -238,7 +238,10 @@ def check_case(case):
             for opt in options:
                 if refuses(opt):
                     continue
-                ref = _rows(run(opt))
+                try:
+                    ref = _rows(run(opt))
+                except Refusal:
+                    continue    # an alternative retained set (tie between time steps) that is refused alone - e.g. a dead record - was not the one used
                 if same_bits(ref[0], got[0]):
                     ok = True
             require(ok, f"{what}: diffuse-field curve differs from the curve of the retained recordings processed alone")
